@@ -89,6 +89,16 @@ func Families() []Named {
 		{"literal-percent", &Spec{Start: "S", Tokens: []TokDecl{{Name: "TA"}}, Rules: []Rule{{L: "S", R: []string{"S", "'%'", "TA"}}, {L: "S", R: []string{"TA"}}}}},
 		{"literal-dquote", &Spec{Start: "S", Tokens: []TokDecl{{Name: "TA"}}, Rules: []Rule{{L: "S", R: []string{"S", "'\"'", "TA"}}, {L: "S", R: []string{"TA"}}}}},
 		{"literal-record-chars", &Spec{Start: "S", Tokens: []TokDecl{{Name: "TA"}}, Rules: []Rule{{L: "S", R: []string{"'{'", "S", "'}'"}}, {L: "S", R: []string{"S", "'|'", "TA"}}, {L: "S", R: []string{"'<'", "TA", "'>'"}}, {L: "S", R: []string{"TA"}}}}},
+		// shapes taken from seeded changes that the size-bounded classes cannot reach
+		// a cycle in `includes` (mutual right recursion) entered before a later exit context:
+		{"scc-includes-late-exit", Parse("S", nil, "S: A | 'c' 'c' 'c' A 'd' | 'e' 'e' 'e' B 'f' ; A: 'a' B | 'a' 'y' 'w' | 'x' ; B: 'b' A | 'b' 'x' 'z' | 'y'")},
+		{"scc-includes-order", Parse("P", nil, "P: 'x' Q 's' | 'y' 'u' 'v' Q 't' ; Q: 'p' R | 'm' O ; R: | 'q' Q | 'q' 'm' 'w' ; O: | 'n'")},
+		// two transitions including the same one, each with its own read set, follow set of size 3:
+		{"shared-follow-3", Parse("S", nil, "S: B 'x' | B 'y' | B 'z' ; B: 'a' P C | 'b' Q D ; P: 'p' ; Q: 'q' ; C: | 'c' ; D: | 'd'")},
+		{"shared-follow-5", Parse("S", nil, "S: B 'x' | B 'y' | B 'z' | B 'u' | B 'v' ; B: 'a' P C | 'b' Q D ; P: 'p' ; Q: 'q' ; C: | 'c' ; D: | 'd'")},
+		// a rule with more than nine right-hand-side symbols ($10, $11 in actions)
+		{"rhs-11", Parse("S", abc[:2], "S: TA TB TA TB TA TB TA TB TA TB TA | TB")},
+		{"prec-literal", Parse("E", []string{"TA"}, "E: E '-' E | E '*' E | '-' E %prec '*' | TA").WithPrec("left '-'", "left '*'")},
 		{"nonassoc-cmp", Parse("E", []string{"TA"}, "E: E '<' E | E '+' E | TA").WithPrec("nonassoc '<'", "left '+'")},
 	}
 }
